@@ -379,6 +379,15 @@ func (s *grpcServer) Write(srv bytestream.ByteStream_WriteServer) error {
 		for {
 			req, err := srv.Recv()
 			if err == io.EOF {
+				if firstIteration {
+					// The client closed the stream without sending anything:
+					// no Put call was started, so nothing would ever arrive
+					// on putResult.
+					msg := "No WriteRequest received"
+					s.accessLogger.Printf("GRPC BYTESTREAM WRITE FAILED: %s", msg)
+					recvResult <- status.Error(codes.InvalidArgument, msg)
+					return
+				}
 				if cmp == casblob.Identity && resp.CommittedSize != size {
 					msg := fmt.Sprintf("Unexpected amount of data read: %d expected: %d",
 						resp.CommittedSize, size)
